@@ -103,7 +103,9 @@ def parseOp (line : String) : Option Op :=
       | "zero" => some none
       | a => some (some (match decodeAcc a with
           | some x => accHex x
-          | none => a.toList))))
+          | none => match Facts.moduleAddrs.find? (fun p => p.1 == a) with
+            | some p => p.2          -- a module account as the owner of an NFT
+            | none => a.toList))))
   | "prevote" => some (.prevote (g 1) (g 2) (strTok (g 3)) (natTok (g 4)))
   | "vote" => some (.vote (g 1) (g 2) (strTok (g 3)) (natTok (g 4)) (parseVD (g 5)))
   | "consent" => some (.consent (g 1) (g 2))
@@ -179,7 +181,7 @@ def dumpModules (s : State) : List String :=
 /-- recipients seen so far that are not named accounts (kept across dumps, as the harness does) -/
 def updateSeen (seen : List Str) (s : State) : List Str :=
   (allRecs s.st).foldl (fun acc p => p.2.rcpt.foldl (fun a r =>
-    if (match holderOfHex r.addr with | .acct _ => true | _ => false) || a.contains r.addr then a else a ++ [r.addr]) acc) seen
+    if (match holderOfHex r.addr with | .acct _ => true | .addr _ => false | _ => true) || a.contains r.addr then a else a ++ [r.addr]) acc) seen
 
 def dumpBalances (s : State) (seen : List Str) : List String :=
   let extras := sortBy strLt ((s.st.tenants.filter (·.mint)).map mintDenom).eraseDups
@@ -344,7 +346,7 @@ partial def chainLoop (stdin : IO.FS.Stream) (s : State) (seen : List Str) (name
       IO.println ("< " ++ resultLine op s.h r)
       -- a record filled and paid within one end-block never shows its recipients in a dump: the tally's events name them
       let seenF := r.filled.foldl (fun a ev => match ev with
-        | .filled _ _ o _ => if (match holderOfHex o with | .acct _ => true | _ => false) || a.contains o then a else a ++ [o]
+        | .filled _ _ o _ => if (match holderOfHex o with | .acct _ => true | .addr _ => false | _ => true) || a.contains o then a else a ++ [o]
         | _ => a) seen
       let seen' := updateSeen seenF r.st
       let named' := noteNamed named l
